@@ -124,6 +124,20 @@ pub fn run_bin(bin: &str, s: &Scratch, cwd: &str, argv: &[String], seed: u64) ->
     cmd.current_dir(s.real(cwd));
     cmd.env("SOLSTAT_VERIF_SEED", seed.to_string());
     cmd.env_remove("RUST_BACKTRACE");
+    // the rest of the process environment is a function of the seed too: simulated wall clock
+    // (LD_PRELOAD interposer, up to three years ahead), time zone, locale, user, home
+    if let Ok(lib) = std::env::var("VERIF_FAKECLOCK") {
+        if Path::new(&lib).is_file() {
+            cmd.env("LD_PRELOAD", lib);
+            cmd.env("SOLSTAT_VERIF_CLOCK_OFFSET", clock_offset(seed).to_string());
+        }
+    }
+    let h = crate::rng::mix(seed ^ 0xe7);
+    cmd.env("TZ", ["UTC", "Asia/Tokyo", "America/New_York", "Australia/Lord_Howe"][(h % 4) as usize]);
+    cmd.env("LANG", ["C", "en_US.UTF-8", "de_DE.UTF-8"][((h >> 8) % 3) as usize]);
+    cmd.env("USER", ["root", "alice", "builder"][((h >> 16) % 3) as usize]);
+    cmd.env("HOME", ["/root", "/home/alice", "/nonexistent"][((h >> 24) % 3) as usize]);
+    cmd.env("COLUMNS", ["80", "200", "20"][((h >> 32) % 3) as usize]);
     match cmd.output() {
         Ok(o) => BinRun {
             status: o.status.code().unwrap_or(-1),
@@ -134,6 +148,11 @@ pub fn run_bin(bin: &str, s: &Scratch, cwd: &str, argv: &[String], seed: u64) ->
             stderr: format!("spawn failed: {}", e),
         },
     }
+}
+
+/// Simulated wall-clock shift of a run, in seconds (0 .. three years), a function of its seed.
+pub fn clock_offset(seed: u64) -> u64 {
+    crate::rng::mix(seed ^ 0xc10c) % (3 * 365 * 24 * 3600)
 }
 
 fn strip_faults(w: &mut World) {
@@ -393,12 +412,16 @@ fn walk_case(id: &str, bin: &str, world: &World, seed: u64, r: &mut ScnResult) -
 }
 
 fn seeds_case(bin: &str, world: &World, seeds: &[u64], r: &mut ScnResult) -> Option<(String, String)> {
-    let s = Scratch::new();
-    materialise(world, &s);
     let argv = vec!["solstat".to_string(), "--path".to_string(), "/w/c".to_string()];
     let mut first: Option<Vec<u8>> = None;
+    let mut span = (u64::MAX, 0u64);
     for (i, seed) in seeds.iter().enumerate() {
-        let _ = std::fs::remove_file(s.real("/w/solstat_report.md"));
+        // every run gets its own copy of the tree at a different location, its own simulated clock
+        // and its own environment: only the directory *content* is the same
+        let s = Scratch::new();
+        materialise(world, &s);
+        let off = clock_offset(*seed);
+        span = (span.0.min(off), span.1.max(off));
         let run = run_bin(bin, &s, "/w", &argv, *seed);
         r.evaluations += 1;
         r.steps += 1;
@@ -419,6 +442,9 @@ fn seeds_case(bin: &str, world: &World, seeds: &[u64], r: &mut ScnResult) -> Opt
                 first = Some(rep)
             }
             Some(f) => {
+                if i + 1 == seeds.len() {
+                    r.count("simulated_wall_clock_seconds_spanned_by_groups_total", span.1 - span.0);
+                }
                 if *f != rep {
                     return Some((
                         "binary_reports_differ_between_seeds".into(),
